@@ -276,6 +276,76 @@ static void fifo_three_consumers()
     pmc_outcome("n=%d successes=%d", n, successes);
 }
 
+// FIFO back-end with producer threads that come and go (pika's OS worker threads do across runtime restarts):
+// ConcurrentQueue keeps one sub-queue per producing OS thread, found through a hash of thread ids that grows,
+// and recycles the sub-queue of a thread that has exited.  History: T1 pushes, NFILL further threads push (the
+// hash grows past its first table), T1 pushes again and exits, the long-lived T2 pushes for the first time (takes
+// over T1's sub-queue); then a new thread T3 - which the OS gives T1's old thread id (same stack, same TLS
+// address) - and T2 push at the same time.  Everything pushed must come out exactly once.
+#include <condition_variable>
+#include <mutex>
+template <int NFILL>
+static void fifo_thread_churn()
+{
+    pt::lockfree_fifo_backend<int> q(8);
+    // one gate per waiting thread: at every step exactly one thread is woken (a notify_all over 20 threads would
+    // only multiply the free successor choices at blocking points; the threads do nothing concurrently there)
+    struct Gate
+    {
+        std::mutex m;
+        std::condition_variable cv;
+        int v = 0;
+        void wait(int x) { std::unique_lock<std::mutex> l(m); cv.wait(l, [&] { return v >= x; }); }
+        void set(int x) { std::lock_guard<std::mutex> l(m); v = x; cv.notify_one(); }
+        void add() { std::lock_guard<std::mutex> l(m); ++v; cv.notify_one(); }
+    };
+    static Gate gmain, g1, g2, g3, gf[NFILL];
+    gmain.v = g1.v = g2.v = g3.v = 0;
+    for (auto& x : gf) x.v = 0;
+    std::vector<int> pushed;
+    auto push = [&](int v) { PMC_ASSERT(q.push(v), "be-push", "push(%d) failed", v); };
+    int second_round = pmc_choose(2, 0);    // 1: T1 pushes again after the hash has grown (it is re-added to the new table)
+    int nacks = 0;
+    std::uintptr_t id1 = 0, id3 = 0;
+    std::thread t2([&] { g2.wait(1); push(3); gmain.add(); g2.wait(2); push(4); });
+    std::thread t1([&] { id1 = pika::concurrency::detail::thread_id(); push(1); gmain.add(); g1.wait(1); if (second_round) push(2); });
+    gmain.wait(++nacks);
+    pushed.push_back(1);
+    std::vector<std::thread> fillers;
+    for (int i = 0; i < NFILL; ++i)
+    {
+        fillers.emplace_back([&, i] { push(100 + i); gmain.add(); gf[i].wait(1); });    // stay alive: their ids are not re-used
+        gmain.wait(++nacks);
+        pushed.push_back(100 + i);
+    }
+    g1.set(1);
+    t1.join();    // T1 has exited: its sub-queue becomes recyclable
+    if (second_round) pushed.push_back(2);
+    g2.set(1);
+    gmain.wait(++nacks);
+    pushed.push_back(3);
+    std::thread t3([&] { id3 = pika::concurrency::detail::thread_id(); g3.wait(1); push(5); });
+    g2.set(2);    // T2's push(4) and T3's push(5) overlap
+    g3.set(1);
+    t3.join();
+    t2.join();
+    pushed.push_back(4);
+    pushed.push_back(5);
+    for (int i = 0; i < NFILL; ++i) { gf[i].set(1); fillers[i].join(); }
+    std::vector<int> count(128, 0);
+    for (int v : pushed) ++count[v];
+    for (size_t i = 0; i < pushed.size(); ++i)
+    {
+        int v = -1;
+        PMC_ASSERT(q.pop(v), "quiescent-pop-failed", "%d of %d pushed elements came out, then pop failed (T3 %s T1's thread id)", (int) i, (int) pushed.size(), id1 == id3 ? "re-uses" : "does not re-use");
+        PMC_ASSERT(v > 0 && v < 128 && count[v] > 0, "invented-or-duplicate", "drain returned %d which was not (or no longer) in the container", v);
+        --count[v];
+    }
+    int v = -1;
+    PMC_ASSERT(!q.pop(v), "invented-or-duplicate", "pop on the drained queue returned %d", v);
+    pmc_outcome("second_round=%d id_reused=%d", second_round, (int) (id1 == id3));
+}
+
 int main(int argc, char** argv)
 {
     static const char* dsites = "concurrency/include/pika/concurrency/deque.hpp|boost/lockfree/detail/freelist.hpp|concurrency/detail/freelist.hpp";
@@ -297,6 +367,7 @@ int main(int argc, char** argv)
         {"be_fifo_2p1c", backend_concurrent<pt::lockfree_fifo_backend<int>, 2, 1>, 1, 2, 0.06, 0.1, 1, "F-site: all atomics in concurrentqueue.hpp", cqsites, nullptr},
         {"be_fifo_3c", fifo_three_consumers<1>, 3, -1, 0.35, 0, 1, "F-site: ImplicitProducer::dequeue only (the consumers' tickets and over-commit counters); three consumers, fewer elements than consumers", "ImplicitProducer::dequeue", nullptr},
         {"be_fifo_3c_n2", fifo_three_consumers<2>, -1, 3, 0, 0.2, 1, "the same with 1-2 elements", "ImplicitProducer::dequeue", nullptr},
+        {"be_fifo_thread_churn", fifo_thread_churn<17>, 1, 2, 0.05, 0.05, 1, "F-site: ImplicitProducer::enqueue / get_or_add_implicit_producer / thread-exit recycling; 20 OS threads, two of them pushing at the same time at the end", "ImplicitProducer::enqueue|get_or_add_implicit_producer|implicit_producer_thread_exited|recycle_or_create_producer", nullptr},
         {"be_fifo_1p2c", backend_concurrent<pt::lockfree_fifo_backend<int>, 1, 2>, 1, 2, 0.06, 0.1, 1, "F-site: concurrentqueue.hpp", cqsites, nullptr},
         {"be_abp_lifo_1p2c", backend_concurrent<pt::lockfree_abp_lifo_backend<int>, 1, 2>, 1, 2, 0.06, 0.05, 1, "F-site: deque.hpp / freelist", dsites, nullptr},
     };
